@@ -171,6 +171,12 @@ theorem seeds_distinct : (Gen.fpSeeds.map (·.2)).Nodup ∧ Gen.fpSeeds.all (fun
 theorem seeds_spread :
     Gen.fpSeeds.all (fun e => decide ((2 : Int) ^ 32 ≤ e.2) && decide (e.2 ≤ (Gen.FP_P : Int) - 2 ^ 32)) = true := by decide +kernel
 
+/-- … and from the two fixed hashes of `_hash_element` (None, NaN): `set()` must not look like None (it did for an hour: the first
+    multiplier chosen for the starting values was the very constant used for None) -/
+theorem seeds_avoid_literals :
+    Gen.fpSeeds.all (fun e => decide (e.2 ≠ (Gen.NONE_HASH : Int) % Gen.FP_P) && decide (e.2 ≠ (Gen.NAN_HASH : Int) % Gen.FP_P)) = true := by
+  decide +kernel
+
 /-- an empty container hashes to the starting value of its kind -/
 theorem empty_container_hash (k : Nat) : (Elem.seq k []).hash = seedOf k 0 := by
   simp [Elem.hash, Elem.hashFrom]
